@@ -8,10 +8,12 @@ import (
 	"os/exec"
 	"path/filepath"
 	"regexp"
+	"sort"
 	"strconv"
 	"strings"
 
 	"github.com/openconfig/goyang/pkg/yang"
+	"github.com/openconfig/goyang/pkg/yangentry"
 	"verif/internal/dump"
 	"verif/internal/faults"
 	"verif/internal/job"
@@ -20,6 +22,9 @@ import (
 )
 
 var posRe = regexp.MustCompile(`^([^:\s]+):(\d+):(\d+):`)
+
+// a source without a name gives positions of the form "line 4:11"
+var namelessRe = regexp.MustCompile(`^(line) (\d+):(\d+):`)
 
 // sortedAndUnique checks an error list independently of goyang's errorSort:
 // entries that start with file:line:col must be ordered by (file, line, col) among
@@ -38,6 +43,11 @@ func sortedAndUnique(errs []error) string {
 		}
 		seen[s] = true
 		m := posRe.FindStringSubmatch(s)
+		if m == nil {
+			if m = namelessRe.FindStringSubmatch(s); m != nil {
+				m[1] = ""
+			}
+		}
 		if m == nil {
 			continue
 		}
@@ -62,7 +72,28 @@ func conflictSet(i int64, seed int64) []file {
 	r := prng.For(seed, "C05", "conflict", i)
 	pick := func(xs ...string) string { return xs[r.Intn(len(xs))] }
 	var fs []file
-	switch i % 13 {
+	switch i % 15 {
+	case 14: // a text given without a source name (positions read "line N:C"), with faults on lines of one, two and three digits
+		var b strings.Builder
+		b.WriteString("module nameless {\n  namespace \"urn:nameless\";\n  prefix nl;\n")
+		line := 4
+		for q := 0; q < 5+r.Intn(6); q++ {
+			for skip := []int{0, 1, 5, 9, 40, 95}[r.Intn(6)]; skip > 0; skip-- {
+				b.WriteString("\n")
+				line++
+			}
+			fmt.Fprintf(&b, "  leaf l%d { type %s; %s }\n", q, pick("string", "nosuch"+fmt.Sprint(q), "uint8 { range \"300..400\"; }"), pick("", "config maybe;", "mandatory perhaps;"))
+			line++
+		}
+		b.WriteString("}\n")
+		fs = append(fs, file{"", b.String()})
+	case 13: // two or three modules that claim one namespace (the instantiating module of their nodes cannot be told, and the error that says so must say the same every time), next to a module in two revisions (one module, one namespace)
+		for _, n := range []string{"nsa", "nsb", "nsc"}[:2+r.Intn(2)] {
+			fs = append(fs, file{n + ".yang", fmt.Sprintf("module %s { namespace \"urn:shared\"; prefix %s; %s container c%s { leaf l { type string; } } }", n, n, pick("", "revision 2020-01-01;"), n)})
+		}
+		fs = append(fs, file{"two1.yang", "module two { namespace \"urn:two\"; prefix two; revision 2019-01-01; container t { leaf old { type string; } } }"})
+		fs = append(fs, file{"two2.yang", "module two { namespace \"urn:two\"; prefix two; revision 2020-01-01; container t { leaf new { type string; } } }"})
+		fs = append(fs, file{"user.yang", "module user { namespace \"urn:user\"; prefix user; import nsa { prefix a; } import two { prefix t; " + pick("", "revision-date 2019-01-01;") + " } augment /a:cnsa { leaf fromuser { type string; } } augment /t:t { leaf fromuser { type string; } } }"})
 	case 12: // rings of typedefs of length 2-4 that run through union members, plain chains, or both; in one module or across modules
 		n := 2 + r.Intn(3)
 		across := r.Intn(2) == 0
@@ -448,6 +479,47 @@ func CLI(j *job.Job, s *job.Sink) {
 			}
 			if len(outs) > 1 {
 				s.Violation(c, j.CaseID(c), "C05.cli", "output-varies:"+format, fmt.Sprintf("%d different outputs of `goyang -f %s` over 10 runs", len(outs), format), fs, map[string]any{"format": format})
+			}
+		}
+		// the library's own convenience entry point for "parse these files": which trees it
+		// returns, under which names, must not vary either
+		if c%3 == 1 {
+			var paths []string
+			for _, n := range names {
+				paths = append(paths, filepath.Join(dir, n))
+			}
+			outs := map[string]int{}
+			for k := 0; k < 12; k++ {
+				r.Shuffle(len(paths), func(a, b int) { paths[a], paths[b] = paths[b], paths[a] })
+				entries, errs := yangentry.Parse(paths, nil)
+				var ks []string
+				for n, e := range entries {
+					var cs []string
+					for cn := range e.Dir {
+						cs = append(cs, cn)
+					}
+					sort.Strings(cs)
+					full := ""
+					if m, ok := e.Node.(*yang.Module); ok {
+						full = m.FullName()
+					}
+					ks = append(ks, fmt.Sprintf("%s=%s%v", n, full, cs))
+				}
+				sort.Strings(ks)
+				outs[fmt.Sprintf("%v errors=%d", ks, len(errs))]++
+				s.Count("executions", 1)
+			}
+			s.Count("yangentry_sets", 1)
+			if len(outs) > 1 {
+				var first []string
+				for o := range outs {
+					if len(o) > 200 {
+						o = o[:200]
+					}
+					first = append(first, o)
+				}
+				sort.Strings(first)
+				s.Violation(c, j.CaseID(c), "C05.cli", "output-varies:yangentry", fmt.Sprintf("%d different results of yangentry.Parse over 12 calls, e.g. %q and %q", len(outs), first[0], first[1]), fs, map[string]any{"format": "yangentry"})
 			}
 		}
 		os.RemoveAll(dir)
